@@ -14,7 +14,8 @@ fn hx(b: &[u8]) -> String { let s = hex::encode(b); let t = s.trim_start_matches
 fn big(h: &str) -> BigUint { BigUint::parse_bytes(h.as_bytes(), 16).unwrap() }
 fn bhex(b: &BigUint) -> String { hx(&b.to_bytes_be()) }
 
-struct Ctx<'a> { drv: &'a mut Driver, rep: &'a mut Report, prop: &'a str }
+/// `context`: request lines of the calls made just before on the same thread (cross-key sequences), prepended to a failure's replay lines
+struct Ctx<'a> { drv: &'a mut Driver, rep: &'a mut Report, prop: &'a str, context: Vec<String> }
 
 impl<'a> Ctx<'a> {
     /// one comparison: implementation value vs model answer (+ optional spec answer as predicate)
@@ -25,11 +26,11 @@ impl<'a> Ctx<'a> {
         if let Some(sr) = spec_req {
             let spec = self.drv.ask(&sr);
             if got != spec {
-                self.rep.pred_fail(Failure { stream: stream.into(), index: idx, request: vec![req.clone(), sr], impl_out: got.clone(), model_out: spec, key: key.into(), what: what.into() });
+                self.rep.pred_fail(Failure { stream: stream.into(), index: idx, request: self.context.iter().cloned().chain([req.clone(), sr]).collect(), impl_out: got.clone(), model_out: spec, key: key.into(), what: what.into() });
             }
         }
         if got != model {
-            self.rep.diverge(Failure { stream: stream.into(), index: idx, request: vec![req], impl_out: got, model_out: model, key: format!("{key}:model"), what: format!("Lean model and sl-paillier disagree ({stream})") });
+            self.rep.diverge(Failure { stream: stream.into(), index: idx, request: self.context.iter().cloned().chain([req]).collect(), impl_out: got, model_out: model, key: format!("{key}:model"), what: format!("Lean model and sl-paillier disagree ({stream})") });
         }
     }
     fn pred(&mut self, stream: &str, ok: bool, req: String, got: String, want: String, key: &str, what: &str) {
@@ -124,6 +125,23 @@ macro_rules! cfg_impl {
                 let _ = nn;
             }
 
+            /// the homomorphic operations on RAW operands (c, c2 < 2^width, k < N): used to apply the very same operands
+            /// under several keys in a row on one thread — the results are functions of (key, operands) only
+            pub fn raw_ops(cx: &mut Ctx, tag: &str, p: &BigUint, q: &BigUint, c: &BigUint, c2: &BigUint, k: &BigUint) {
+                let sk: Sk = match catch_unwind(AssertUnwindSafe(|| Sk::from_pq(&up(p), &up(q)))) { Ok(s) => s, Err(_) => return };
+                let pk = sk.public_key();
+                let pre = format!("{} {} {}", PBITS, bhex(p), bhex(q));
+                let Some(km) = pk.into_message(&um(k)) else { return };
+                let (rc, rc2) = (RawCiphertext::from(uc(c)), RawCiphertext::from(uc(c2)));
+                let pv = pk.mul_vartime(&rc, &km);
+                cx.cmp(&format!("{tag}:mulvt"), format!("pai mulvt {pre} {} {}", bhex(c), bhex(k)), hc(&pv.to_uint()), Some(format!("pai specmul {pre} {} {}", bhex(c), bhex(k))), "paillier:mulvt!=c^k", "mul_vartime result differs from c^k mod N² (same operands under another key just before)", true);
+                let pm = pk.mul(&rc, &km);
+                cx.cmp(&format!("{tag}:mul"), format!("pai mul {pre} {} {}", bhex(c), bhex(k)), hc(&pm.to_uint()), Some(format!("pai specmul {pre} {} {}", bhex(c), bhex(k))), "paillier:mul!=c^k", "mul result differs from c^k mod N² (same operands under another key just before)", true);
+                let s = pk.add(&rc, &rc2);
+                cx.cmp(&format!("{tag}:add"), format!("pai add {pre} {} {}", bhex(c), bhex(c2)), hc(&s.to_uint()), Some(format!("pai specadd {pre} {} {}", bhex(c), bhex(c2))), "paillier:add!=c1*c2", "add result differs from c1·c2 mod N² (same operands under another key just before)", true);
+                cx.context.push(format!("pai rawops {pre} {} {} {}", bhex(c), bhex(c2), bhex(k)));
+            }
+
             /// key-level checks: public fields, serialised round trip (2048 only elsewhere), message admission
             pub fn key_checks(cx: &mut Ctx, tag: &str, p: &BigUint, q: &BigUint, rng: &mut impl RngCore) {
                 let sk: Sk = Sk::from_pq(&up(p), &up(q));
@@ -207,7 +225,8 @@ fn serde_2048(cx: &mut Ctx, p: &BigUint, q: &BigUint) {
 
 pub fn replay(drv: &mut Driver, rep: &mut Report, lines: &[String], prop: &str) {
     // re-run the implementation side for the request classes that are self-contained
-    let mut cx = Ctx { drv, rep, prop };
+    let mut cx = Ctx { drv, rep, prop, context: vec![] };
+    let mut saw_raw = false;
     for l in lines {
         let t: Vec<&str> = l.split(' ').collect();
         if t.len() >= 5 && t[0] == "pai" {
@@ -217,6 +236,10 @@ pub fn replay(drv: &mut Driver, rep: &mut Report, lines: &[String], prop: &str) 
             macro_rules! go { ($m:ident) => { match t[1] {
                 "message" => { let mut r = case_rng(1, "replay"); $m::key_checks(&mut cx, "replay", &p, &q, &mut r) }
                 "enc" => $m::ops(&mut cx, "replay", &p, &q, &arg(5), &one, &one, &arg(6), &one, false),
+                "mulvt" | "mul" if saw_raw => { let keep = std::mem::take(&mut cx.context); $m::raw_ops(&mut cx, "replay", &p, &q, &arg(5), &one, &arg(6)); cx.context = keep; }
+                "add" if saw_raw => { let keep = std::mem::take(&mut cx.context); $m::raw_ops(&mut cx, "replay", &p, &q, &arg(5), &arg(6), &BigUint::from(2u8)); cx.context = keep; }
+                "rawops" => { saw_raw = true; let keep = std::mem::take(&mut cx.context); $m::raw_ops(&mut cx, "replay", &p, &q, &arg(5), &arg(6), &arg(7)); cx.context = keep; }
+                "specmul" | "specadd" => {}
                 _ => { let mut r = case_rng(1, "replay"); let n = &p * &q; let (m1, m2, k, r1, r2) = (below(&mut r, &n), below(&mut r, &n), below(&mut r, &n), unit_below(&mut r, &n), unit_below(&mut r, &n)); $m::ops(&mut cx, "replay", &p, &q, &m1, &m2, &k, &r1, &r2, false) }
             } } }
             match pb { 128 => go!(c128), 256 => go!(c256), 512 => go!(c512), 1024 => go!(c1024), _ => {} }
@@ -227,7 +250,7 @@ pub fn replay(drv: &mut Driver, rep: &mut Report, lines: &[String], prop: &str) 
 pub fn run(o: &Opts, drv: &mut Driver, rep: &mut Report, prop: &str) {
     let thorough = o.tier == "thorough";
     let mut rng = case_rng(o.seed, "c07");
-    let mut cx = Ctx { drv, rep, prop };
+    let mut cx = Ctx { drv, rep, prop, context: vec![] };
     let b = |v: u32| BigUint::from(v);
     // ---- toy keys: exhaustive over (m, r) [C07] / (m1, m2, k) [C08]
     let primes = [3u32, 5, 7, 11, 13, 17, 19, 23, 29, 31];
@@ -276,5 +299,27 @@ pub fn run(o: &Opts, drv: &mut Driver, rep: &mut Report, prop: &str) {
     if prop == "C07" {
         let (p, q) = (c1024::gen_prime(&mut rng, 1024), c1024::gen_prime(&mut rng, 1024));
         serde_2048(&mut cx, &p, &q);
+    } else {
+        // ---- the SAME operands under several keys in a row (A, B, A, C, B …): add / mul / mul_vartime are functions of
+        //      (key, operands); whatever a call leaves behind (a memo, a cached modulus) must not reach the next key
+        let toys: Vec<(u32, u32)> = primes.iter().flat_map(|&p| primes.iter().map(move |&q| (p, q))).filter(|&(p, q)| valid_toy(p, q) && p * q >= 15).collect();
+        for round in 0..(if thorough { 40 } else { 6 }) * o.scale as usize {
+            let (c, c2, k) = (b(rng.gen_range(2..200)), b(rng.gen_range(1..200)), b(rng.gen_range(2..15)));
+            cx.context.clear();
+            for i in 0..5 { let (p, q) = toys[(round * 7 + i * 3 + (i % 2) * round) % toys.len()]; c128::raw_ops(&mut cx, "cross-key-toy", &b(p), &b(q), &c, &c2, &k); }
+        }
+        macro_rules! cross { ($m:ident, $rounds:expr) => {{
+            let keys: Vec<(BigUint, BigUint)> = (0..3).map(|i| { let bits = if i == 2 { $m::PBITS - 5 } else { $m::PBITS }; ($m::gen_prime(&mut rng, bits), $m::gen_prime(&mut rng, bits)) }).filter(|(p, q)| p != q).collect();
+            let nmin = keys.iter().map(|(p, q)| p * q).min().unwrap();
+            for _ in 0..$rounds {
+                let (c, c2) = (below(&mut rng, &(&nmin * &nmin)), below(&mut rng, &(&nmin * &nmin)));
+                let k = if rng.gen_bool(0.5) { BigUint::from(rng.gen_range(2u32..1000)) } else { below(&mut rng, &nmin) };
+                cx.context.clear();
+                for i in [0usize, 1, 0, 2, 1] { if let Some((p, q)) = keys.get(i) { $m::raw_ops(&mut cx, &format!("cross-key-P{}", $m::PBITS), p, q, &c, &c2, &k); } }
+            }
+        }} }
+        if thorough { cross!(c128, 20 * s); cross!(c256, 10 * s); cross!(c512, 6 * s); cross!(c1024, 3 * s); }
+        else { cross!(c128, 4 * s); cross!(c256, 2 * s); cross!(c512, 1 * s); cross!(c1024, 1 * s); }
+        cx.context.clear();
     }
 }
